@@ -187,13 +187,39 @@ func sameTx(a *TxJ, t *ledger.Transaction) string {
 
 func checkAckPersist(o *Observed) []Finding {
 	var out []Finding
+	// one logical request = one tag; requests carrying an idempotency key are one logical request per key, whatever their
+	// payload says (a second request under a recorded key is answered with the recorded outcome and writes nothing)
+	ikOfTag := map[string]string{}
+	for _, r := range o.Recs {
+		if r.Op.IK != "" && !r.Op.DryRun {
+			ikOfTag[r.Op.Tag] = r.Op.IK
+		}
+	}
+	ident := func(tag, ik string) string {
+		if ik != "" {
+			return "key:" + ik
+		}
+		if k, ok := ikOfTag[tag]; ok {
+			return "key:" + k
+		}
+		return tag
+	}
 	logsByTag := map[string][]int{}
 	for i, l := range o.Logs {
-		logsByTag[logTag(l)] = append(logsByTag[logTag(l)], i)
+		id := ident(logTag(l), l.IdempotencyKey)
+		logsByTag[id] = append(logsByTag[id], i)
 	}
 	recsByTag := map[string][]*Record{}
 	for _, r := range o.Recs {
-		recsByTag[r.Op.Tag] = append(recsByTag[r.Op.Tag], r)
+		ik := r.Op.IK
+		if r.Op.DryRun {
+			ik = ""
+		}
+		id := ident(r.Op.Tag, ik)
+		if r.Op.DryRun {
+			id = r.Op.Tag
+		}
+		recsByTag[id] = append(recsByTag[id], r)
 	}
 	for tag, recs := range recsByTag {
 		nOK := 0
